@@ -275,7 +275,9 @@ impl AsyncRead for MockReader {
                 Poll::Pending
             },
             RStep::Give(n) => {
-                let n = (n.max(1) as usize).min(buf.len()).min(avail);
+                // u16::MAX means "as much as fits"
+                let n = if n == u16::MAX { usize::MAX } else { n.max(1) as usize };
+                let n = n.min(buf.len()).min(avail);
                 if n < buf.len().min(avail) {
                     w.short_reads += 1;
                 }
@@ -320,7 +322,8 @@ impl MockWriter {
                 Poll::Pending
             },
             WStep::Accept(n) => {
-                let mut n = (n.max(1) as usize).min(total);
+                let n = if n == u16::MAX { usize::MAX } else { n.max(1) as usize };
+                let mut n = n.min(total);
                 if n < total {
                     w.short_writes += 1;
                 }
@@ -489,6 +492,9 @@ pub enum HOp {
     Read(u16),
     /// read until Ok(0) (or an error)
     ReadToEnd { cap: u16 },
+    /// start a read but give up (drop the future, as a timeout or `select!` would) if it is
+    /// still pending after this many polls
+    ReadCancel { cap: u16, polls: u8 },
     /// AsyncBufRead::fill_buf, then consume min(k, len)
     FillConsume(u16),
     /// select the next input stream of the role (no-op if there is none)
@@ -543,6 +549,27 @@ pub fn handler_bytes(inv: usize, stderr: bool, offset: usize, len: usize) -> Vec
     all[offset..].to_vec()
 }
 
+/// Polls the inner future at most `left` times; yields `None` if it is still pending then.
+struct PollLimited<F> {
+    fut: Pin<Box<F>>,
+    left: usize,
+}
+
+impl<F: Future> Future for PollLimited<F> {
+    type Output = Option<F::Output>;
+    fn poll(mut self: Pin<&mut Self>, cx: &mut Context<'_>) -> Poll<Self::Output> {
+        if self.left == 0 {
+            return Poll::Ready(None);
+        }
+        self.left -= 1;
+        match self.fut.as_mut().poll(cx) {
+            Poll::Ready(v) => Poll::Ready(Some(v)),
+            Poll::Pending if self.left == 0 => Poll::Ready(None),
+            Poll::Pending => Poll::Pending,
+        }
+    }
+}
+
 type Req<'b> = Request<'b, MockReader, MockWriter>;
 
 fn active(req: &Req<'_>) -> Option<u8> {
@@ -578,7 +605,19 @@ async fn interpret(req: &mut Req<'_>, sh: Arc<HShared>, idx: usize) -> io::Resul
         }};
     }
     let order = wire::role_streams(u16::from(req.role())).to_vec();
+    // Like a real handler, keep the output writers for the whole invocation (they are dropped
+    // when the handler returns, as Request::close requires).
+    let mut writers: [Option<fastcgi_server::async_io::StreamWriter<MockWriter>>; 2] = [None, None];
+    // After a cancelled read the Request may still hold the output lock for a reply whose flush
+    // was pending; writing through a StreamWriter on the same task would then wait forever (see
+    // DESIGN.md section 6, observation 2 - outside the listed properties). The scripted handler
+    // therefore does not use its output writers any more once it has cancelled a read.
+    let mut cancelled_read = false;
     for op in ops {
+        if cancelled_read && matches!(op, HOp::Write { .. } | HOp::WriteAll { .. } | HOp::Flush { .. }) {
+            continue;
+        }
+
         match op {
             HOp::Read(cap) => {
                 let mut buf = vec![0u8; cap as usize];
@@ -600,6 +639,33 @@ async fn interpret(req: &mut Req<'_>, sh: Arc<HShared>, idx: usize) -> io::Resul
                         }
                     },
                     Err(e) => fail_or_continue!(e, true),
+                }
+            },
+            HOp::ReadCancel { cap, polls } => {
+                let mut buf = vec![0u8; cap as usize];
+                let a = active(req);
+                let res = {
+                    let fut = req.read(&mut buf);
+                    PollLimited { fut: Box::pin(fut), left: polls as usize + 1 }.await
+                };
+                match res {
+                    None => cancelled_read = true,
+                    Some(Ok(n)) => {
+                        if let Some(s) = a {
+                            log!(|i| {
+                                if n > 0 && i.eof_seen.get(&s) == Some(&true) {
+                                    i.data_after_eof = true;
+                                }
+                                i.reads.entry(s).or_default().extend_from_slice(&buf[..n]);
+                                if n == 0 && cap > 0 {
+                                    i.eof_seen.insert(s, true);
+                                }
+                            });
+                        } else if n > 0 {
+                            log!(|i| i.reads.entry(0).or_default().extend_from_slice(&buf[..n]));
+                        }
+                    },
+                    Some(Err(e)) => fail_or_continue!(e, true),
                 }
             },
             HOp::ReadToEnd { cap } => {
@@ -691,7 +757,10 @@ async fn interpret(req: &mut Req<'_>, sh: Arc<HShared>, idx: usize) -> io::Resul
                 let ty = if stderr { wire::T_STDERR } else { wire::T_STDOUT };
                 let k = stderr as usize;
                 let data = handler_bytes(idx, stderr, written[k], len as usize);
-                let mut w = req.output_stream(RecordType::try_from(ty).unwrap());
+                if writers[k].is_none() {
+                    writers[k] = Some(req.output_stream(RecordType::try_from(ty).unwrap()));
+                }
+                let w = writers[k].as_mut().unwrap();
                 let all = matches!(op, HOp::WriteAll { .. });
                 let mut off = 0usize;
                 loop {
@@ -705,7 +774,9 @@ async fn interpret(req: &mut Req<'_>, sh: Arc<HShared>, idx: usize) -> io::Resul
                             }
                         },
                         Err(e) => {
-                            drop(w);
+                            // a handler that carries on after a failed write must not reuse the
+                            // writer with a different buffer (documented contract): give it up
+                            writers[k] = None;
                             fail_or_continue!(e, false);
                             break;
                         },
@@ -715,10 +786,13 @@ async fn interpret(req: &mut Req<'_>, sh: Arc<HShared>, idx: usize) -> io::Resul
             HOp::Flush { stderr } => {
                 if req.is_writeable() {
                     let ty = if stderr { wire::T_STDERR } else { wire::T_STDOUT };
-                    let mut w = req.output_stream(RecordType::try_from(ty).unwrap());
-                    let r = w.flush().await;
-                    drop(w);
+                    let k = stderr as usize;
+                    if writers[k].is_none() {
+                        writers[k] = Some(req.output_stream(RecordType::try_from(ty).unwrap()));
+                    }
+                    let r = writers[k].as_mut().unwrap().flush().await;
                     if let Err(e) = r {
+                        writers[k] = None;
                         fail_or_continue!(e, false);
                     }
                 }
